@@ -36,7 +36,7 @@ ExplainedScope(e) ==
 Explained(e) == IF e.t = "bind" THEN ExplainedBind(e) ELSE ExplainedScope(e)
 
 Next == /\ l <= Len(Rec)
-        /\ Explained(Rec[l])
+        /\ Explained(Rec[l]) = TRUE       \* evaluated as a value (not split into sub-actions)
         /\ l' = l + 1
 Spec == Init /\ [][Next]_l
 
